@@ -5,6 +5,7 @@
 (*   ew, ns            |cell size| (integers)                                               *)
 (*   cells[r][c]       observed output class [neg1, is180, inrange, angok, mdeg, dhs, dh4ok, dh4] *)
 (*   blocks[n][c]      float bridge, row-major cell ids (1-based sequences): 0 / 1 / 2      *)
+(*   rep               1 / 0: repeated calls on the same object and on a fresh copy agree, input values kept *)
 (*   svr, svc, sew, sns, order   what _viewshed_cpu handed to the sweep (observer cell,      *)
 (*                     |resolution|, sorted event list <<r,c,type,tie>>); step level         *)
 (*   ops               <<type, key>> of every insert(1)/delete(-1)/query(0) the sweep made   *)
@@ -59,7 +60,10 @@ TablesAgree(c, tb) ==
      /\ {<<n \div c.W, n % c.W>> : n \in Cand(tb, i)}
           = Candidates(c.H, c.W, i \div c.W, i % c.W, c.vr, c.vc, c.ew, c.ns)
      /\ Rival(tb, i) = EqualKeyRival(c.H, c.W, i \div c.W, i % c.W, c.vr, c.vc, c.ew, c.ns)
+\* rep = 0: calling again on the same raster object (after a call with another observer) or on a fresh
+\* copy gave another result, or the input values changed
 V(c, tb) == IF ~TablesAgree(c, tb) THEN "judge_tables_inconsistent"
+            ELSE IF c.rep = 0 THEN "repeated_call_differs_or_input_modified"
             ELSE IF \E i \in tb.ids : Rival(tb, i) THEN "outside_model_equal_keys" ELSE FirstBad(c, tb, 0)
 
 \* vacuity bookkeeping: cells whose verdict leaned on a borderline comparison
